@@ -106,7 +106,7 @@ class Job:
 
     def __init__(self, name, harness, defines, cbmc_srcs, native_srcs, backend="z3", unwind=40,
                  timeout=300, config="default", extra=(), facet="", unwindset=(), expect_fail=None,
-                 shape=None, note=""):
+                 shape=None, note="", instrument=()):
         self.name = name
         self.harness = os.path.join(HARN, harness)
         self.defines = dict(defines)
@@ -121,6 +121,10 @@ class Job:
         self.unwindset = list(unwindset)
         self.shape = shape if shape is not None else dict(defines)
         self.note = note
+        # [(library source, [functions whose bodies are removed and supplied by the harness])]:
+        # the TU is compiled by goto-cc, goto-instrument --remove-function-body drops the callees,
+        # and the harness's recording stubs are linked instead (call-contract queries)
+        self.instrument = [(a, tuple(b)) for a, b in instrument]
 
     def dflags(self):
         return ["-D%s=%s" % (k, v) if v is not None else "-D%s" % k for k, v in sorted(self.defines.items())]
@@ -130,7 +134,13 @@ class Job:
 
     def cbmc_cmd(self, trace_prop=None):
         cmd = ["cbmc"] + self.incflags() + self.dflags() + [self.harness] + self.cbmc_srcs
-        cmd += ["--unwind", str(self.unwind)] + CBMC_FLAGS + self.extra
+        cmd += [instrumented_gb(self, src, funcs) for src, funcs in self.instrument]
+        flags = list(CBMC_FLAGS)
+        extra = list(self.extra)
+        if "--no-pointer-overflow-check-marker" in extra:
+            extra.remove("--no-pointer-overflow-check-marker")
+            flags.remove("--pointer-overflow-check")
+        cmd += ["--unwind", str(self.unwind)] + flags + extra
         for u in self.unwindset:
             cmd += ["--unwindset", u]
         if self.backend == "z3":
@@ -156,6 +166,33 @@ class CmdJob:
         self.shape = shape or {}
         self.note = note
         self.backend = "z3py"
+
+
+_gb_cache = {}
+_gb_lock = None
+
+
+def instrumented_gb(job, src, funcs):
+    import threading
+    global _gb_lock
+    if _gb_lock is None:
+        _gb_lock = threading.Lock()
+    key = (src, funcs, tuple(sorted(job.defines.items())), job.config)
+    with _gb_lock:
+        if key in _gb_cache:
+            return _gb_cache[key]
+        base = os.path.join(scratch(), "gb-%d" % len(_gb_cache))
+        rc, out, _ = run_proc(["goto-cc", "-c"] + job.incflags() + job.dflags() + [src, "-o", base + ".gb"], 120)
+        if rc != 0:
+            raise RuntimeError("goto-cc failed: " + out[-500:])
+        cmd = ["goto-instrument"]
+        for f in funcs:
+            cmd += ["--remove-function-body", f]
+        rc, out, _ = run_proc(cmd + [base + ".gb", base + "-i.gb"], 120)
+        if rc != 0:
+            raise RuntimeError("goto-instrument failed: " + out[-500:])
+        _gb_cache[key] = base + "-i.gb"
+        return _gb_cache[key]
 
 
 RE_PROP = re.compile(r"^\[(.+?)\] (.*): (SUCCESS|FAILURE|UNKNOWN)$")
@@ -192,6 +229,18 @@ def run_cbmc(job):
         return res
     witness = None
     unwind_fail = []
+    if re.search(r": UNKNOWN$", out, re.M) and re.search(r"pointer arithmetic: pointer NULL in .*: FAILURE$", out, re.M) \
+            and "--pointer-overflow-check" in job.cbmc_cmd():
+        # CBMC 6 reports every property behind a failed pointer-arithmetic check as UNKNOWN.  The failed
+        # check is NULL + 0 on a zero-length buffer (a note, see below); re-decide the query without
+        # --pointer-overflow-check (all dereference / bounds checks stay on) so the rest gets a verdict.
+        import copy
+        j2 = copy.copy(job)
+        j2.extra = list(job.extra) + ["--no-pointer-overflow-check-marker"]
+        r2 = run_cbmc(j2)
+        r2.setdefault("notes_null_arith", []).append("NULL+0 pointer arithmetic on a zero-length buffer; re-decided without --pointer-overflow-check")
+        r2["wall_s"] = round(r2["wall_s"] + wall, 2)
+        return r2
     if re.search(r": UNKNOWN$", out, re.M) and job.backend != "sat":
         # non-incremental back ends (external SAT, SMT) leave the remaining properties UNKNOWN once
         # several fail in different iterations: re-decide this query on the incremental SAT back end
@@ -215,6 +264,13 @@ def run_cbmc(job):
                     res["failed"].append((pid, desc + " [proved, but must be refutable]"))
             elif st == "UNKNOWN":
                 res.setdefault("unknown", []).append(pid)
+            elif st != "SUCCESS" and "pointer arithmetic: pointer NULL in" in desc:
+                # NULL + offset formed for a zero-length buffer (e.g. `out += len` with out == NULL,
+                # len == 0).  Undefined by the letter of C99, defined by C2y (N3322) and harmless on every
+                # implementation; like mem*(p, NULL, 0) it is recorded as a note, not as a violation.  A
+                # NULL pointer with a non-zero offset that is ever dereferenced still fails the
+                # dereference checks.
+                res.setdefault("notes_null_arith", []).append(pid)
             elif st != "SUCCESS":
                 if "unwinding assertion" in desc or ".unwind." in pid:
                     unwind_fail.append((pid, desc))
@@ -349,8 +405,18 @@ def native_build(job):
     if key in _native_cache:
         return _native_cache[key]
     exe = os.path.join(scratch(), "native-%d" % len(_native_cache))
+    objs = []
+    for i, (src, funcs) in enumerate(job.instrument):
+        # same substitution natively: the callees become weak so the harness's stubs win at link time
+        o = "%s-w%d.o" % (exe, i)
+        rc, out, _ = run_proc(["gcc", "-O0", "-fno-inline", "-w", "-std=gnu99", "-c"] + job.incflags() + job.dflags() + [src, "-o", o], 120)
+        wk = []
+        for f in funcs:
+            wk += ["-W", f]
+        run_proc(["objcopy"] + wk + [o], 60)
+        objs.append(o)
     cmd = ["gcc", "-O1", "-w", "-std=gnu99"] + job.incflags() + job.dflags() + \
-          [job.harness] + NATIVE + job.native_srcs + ["-o", exe]
+          [job.harness] + NATIVE + job.native_srcs + objs + ["-o", exe]
     rc, out, _ = run_proc(cmd, 120)
     if rc != 0:
         exe = None
@@ -557,6 +623,7 @@ def write_evidence(prop, tier, results, meta, wall, violations, known_hits, inco
             "outside_bounds": meta.get("outside", ""),
             "stubs": meta.get("stubs", []),
             "relies_on": meta.get("relies_on", []),
+            "notes_null_pointer_arithmetic": sum(len(r.get("notes_null_arith", [])) for r in results),
             "witness": "every CBMC query carries a final reachability assertion that must come back "
                        "FAILURE; otherwise the query is reported VACUOUS (inconclusive)",
             "exhaustive": False,
